@@ -690,6 +690,20 @@ func (c *Ctx) KindTables() []core.Ob {
 			}
 			obs = append(obs, o)
 		}
+		// ... and both containers: the encoder's kind table sends fixed-size arrays and slices of these
+		// element kinds the same way ([4]int8 -> TagByteArray), so the case reads into either
+		for _, cont := range []string{"Slice", "Array"} {
+			cc := dec.cases[ar.arrayTag]
+			if cc == nil {
+				continue
+			}
+			o := core.Ob{Rule: "T-KIND", Key: "array-container:" + cont + "->" + ar.name, Pos: c.P.Pos(cc.Pos()), Func: dec.fn, Armed: true, Status: core.OK,
+				Want: "the decoder's case for " + ar.name + " has a branch for reflect." + cont + " targets (the encoder writes both slices and fixed-size arrays as " + ar.name + ")"}
+			if !accepted[ar.arrayTag][cont] {
+				o.Status, o.Got = core.Violated, "a fixed-size array of these elements encodes as "+ar.name+" but the decoder's case never mentions reflect."+cont+": the value cannot be read back"
+			}
+			obs = append(obs, o)
+		}
 	}
 	return obs
 }
